@@ -27,7 +27,7 @@ const char* const kCtrNames[NCTR] = {
     "alloc", "guard_after", "guard_before", "mid_page", "hostile_neighbours", "fill_zero", "fill_ff",
     "fill_quote", "fill_backslash", "fill_noise", "fill_fake_node_cells", "realloc_move",
     "realloc_inplace", "free_poison", "free_protect", "alloc_fail", "caller_release", "big_block",
-    "reuse_lifo"};
+    "reuse_lifo", "dense_overflow_block(no guard page: more live blocks than slots)"};
 uint64_t g_ctr[NCTR];
 FatalCtx g_fatal_ctx = {"?", 0, 0};
 void (*g_on_fatal)(const char*, const char*, int, int) = nullptr;
@@ -156,6 +156,11 @@ static size_t g_head[3], g_cnt[3];
 static std::vector<uint32_t> g_touched[3];
 struct Big { uintptr_t base; size_t maplen; Slot s; };
 static std::map<uintptr_t, Big> g_big;  // keyed by data start
+// dense overflow: when a slot class is exhausted (tens of thousands of live blocks) small blocks are carved
+// out of 4 MiB regions of the big area with hostile gaps between them but without a guard page each -
+// one mapping per block would exceed vm.max_map_count. Ledger, poisoning and fills still apply.
+static uintptr_t g_dense_cur = 0, g_dense_end = 0;
+static const size_t kDenseRegion = 4u << 20;
 static size_t g_live[NPROV];
 
 void* trap_ptr() { return (void*)g_trap; }
@@ -267,6 +272,7 @@ void begin_run(const Env& e) {
     mmap((void*)g_big_base, g_big_bump - g_big_base, PROT_NONE, MAP_PRIVATE | MAP_ANONYMOUS | MAP_NORESERVE | MAP_FIXED, -1, 0);
     g_big.clear();
     g_big_bump = g_big_base;
+    g_dense_cur = g_dense_end = 0;
   }
   memset(g_live, 0, sizeof g_live);
   g_pending.clear();
@@ -310,8 +316,35 @@ static void* do_alloc(Provider p, size_t n, Place want, const char* like, size_t
   Place pl = pick_place(h, want);
   int c = n <= g_cls[0].np * PG ? 0 : n <= g_cls[1].np * PG ? 1 : n <= g_cls[2].np * PG ? 2 : 3;
   Slot* s; char* data; size_t cap; uint32_t idx = 0;
+  bool dense = false;
   if (c < 3) {
-    if (!g_cnt[c]) { c = 3; }
+    if (!g_cnt[c]) { dense = (c == 0); c = 3; }
+  }
+  if (dense) {
+    size_t gap = 16 + (h & 8) + (align8 ? 0 : 1 + ((h >> 4) & 6));
+    size_t need = gap + n + 32;
+    if (g_dense_cur + need > g_dense_end) {
+      size_t maplen = kDenseRegion + 2 * PG;
+      if (g_big_bump + maplen > g_big_end) { fprintf(stderr, "simmem: big area exhausted\n"); _exit(2); }
+      uintptr_t b = g_big_bump; g_big_bump += maplen;
+      mprotect((void*)(b + PG), kDenseRegion, PROT_READ | PROT_WRITE);
+      g_dense_cur = b + PG; g_dense_end = b + PG + kDenseRegion;
+    }
+    uintptr_t at = g_dense_cur + gap;
+    if (align8) at = (at + 7) & ~(uintptr_t)7;
+    char* ptr = (char*)at;
+    fill_neighbour((char*)g_dense_cur, at - g_dense_cur, g_env.hostile, like, like_len);
+    g_dense_cur = at + n;
+    if (p != CALLER) { fill_bytes(ptr, n, g_env.fill, h); g_ctr[kFillCtr[g_env.fill]]++; }
+    g_ctr[C_ALLOC]++; g_ctr[C_DENSE]++;
+    Big bg; bg.base = 0; bg.maplen = 0;
+    Slot* s = &g_big.emplace((uintptr_t)ptr, bg).first->second.s;
+    s->state = S_LIVE; s->prov = p; s->place = PL_MID; s->ord = ord; s->id = g_next_id++;
+    s->op = g_op; s->opkind = g_opkind; s->ptr = ptr; s->size = n; s->via_realloc = via_realloc;
+    g_live[p]++;
+    Block b; b.id = s->id; b.ptr = ptr; b.size = n; b.prov = p; b.op = g_op; b.opkind = g_opkind; b.ord = ord; b.via_realloc = via_realloc;
+    if (g_op_allocs.size() < 4096) g_op_allocs.push_back(b);
+    return ptr;
   }
   if (c < 3) {
     size_t N = g_cls[c].count;
@@ -394,6 +427,7 @@ static void release_slot(Slot* s, int c, uint32_t idx) {
     g_cnt[c]++;
   } else {
     auto it = g_big.find((uintptr_t)s->ptr);
+    if (it->second.maplen == 0) return;   // dense overflow block: poisoned, not protected
     size_t np = it->second.maplen / PG - 2;
     mprotect((void*)(it->second.base + PG), np * PG, PROT_NONE);
     g_ctr[C_FREE_PROTECT]++;
